@@ -1974,6 +1974,183 @@ def _ancestors_of(type_expr):
     return set(CLASS_ANCESTORS.get(name, ())) | {"object"}
 
 
+def _module_instances(tree):
+    """`NAME = C(args)` at module or class level, C a class of the same module whose constructor only stores its
+    parameters (`self._x = x`) and whose instances are never changed afterwards, is a bundle of functions closed over
+    the constructor arguments: for every method M of C a module function `NAME__M` is synthesised (its `self._x` the
+    argument expression, `self(..)` / `self.m(..)` the sibling functions, class constants their values) and
+    `NAME(..)` / `NAME.M(..)` (`self.NAME(..)` for a class-level instance) call those."""
+    classes = {st.name: st for st in tree.body if isinstance(st, ast.ClassDef)}
+    if not classes:
+        return 0
+
+    def ctor_shape(c):
+        """{attribute: parameter} when the class qualifies"""
+        if c.bases or c.decorator_list or c.keywords:
+            return None
+        init = None
+        for st in c.body:
+            if isinstance(st, ast.FunctionDef):
+                if st.decorator_list and [ast.unparse(d) for d in st.decorator_list] not in (["staticmethod"], ["classmethod"]):
+                    return None
+                if st.name == "__init__":
+                    init = st
+        stores = {}
+        params = []
+        if init is not None:
+            a = init.args
+            if a.vararg or a.kwarg or a.kwonlyargs or a.posonlyargs or a.defaults or not a.args:
+                return None
+            me = a.args[0].arg
+            params = [x.arg for x in a.args[1:]]
+            for st in init.body:
+                if isinstance(st, ast.Expr) and isinstance(st.value, ast.Constant):
+                    continue
+                if isinstance(st, ast.Assign) and len(st.targets) == 1 and isinstance(st.targets[0], ast.Attribute) and isinstance(st.targets[0].value, ast.Name) and st.targets[0].value.id == me and isinstance(st.value, ast.Name) and st.value.id in params and st.targets[0].attr not in stores:
+                    stores[st.targets[0].attr] = st.value.id
+                    continue
+                return None
+        # nothing else writes an attribute of an instance
+        for st in c.body:
+            if isinstance(st, ast.FunctionDef) and st is not init:
+                for n in ast.walk(st):
+                    if isinstance(n, ast.Attribute) and isinstance(n.ctx, (ast.Store, ast.Del)) and isinstance(n.value, ast.Name) and st.args.args and n.value.id == st.args.args[0].arg:
+                        return None
+                    if isinstance(n, ast.Name) and n.id in ("super", "__class__"):
+                        return None
+        return params, stores
+
+    def const_of(c, name):
+        for st in c.body:
+            if isinstance(st, ast.Assign) and len(st.targets) == 1 and isinstance(st.targets[0], ast.Name) and st.targets[0].id == name:
+                return st.value
+            if isinstance(st, ast.AnnAssign) and isinstance(st.target, ast.Name) and st.target.id == name and st.value is not None:
+                return st.value
+        return None
+
+    def inert(e):
+        return isinstance(e, (ast.Name, ast.Constant, ast.Lambda)) or (isinstance(e, ast.Attribute) and inert(e.value))
+
+    insts = []  # (holder class or None, name, class def, {param: arg})
+    for holder in [None] + [c for c in tree.body if isinstance(c, ast.ClassDef)]:
+        for st in (tree.body if holder is None else holder.body):
+            tgt = st.targets[0] if isinstance(st, ast.Assign) and len(st.targets) == 1 else st.target if isinstance(st, ast.AnnAssign) and st.value is not None else None
+            v = getattr(st, "value", None)
+            if not (isinstance(tgt, ast.Name) and isinstance(v, ast.Call) and isinstance(v.func, ast.Name) and v.func.id in classes) or v.keywords and any(k.arg is None for k in v.keywords):
+                continue
+            c = classes[v.func.id]
+            if c is holder:
+                continue
+            shape = ctor_shape(c)
+            if shape is None or any(isinstance(a, ast.Starred) for a in v.args) or not all(inert(a) for a in list(v.args) + [k.value for k in v.keywords]):
+                continue
+            params, stores = shape
+            bound = dict(zip(params, v.args))
+            for k in v.keywords:
+                if k.arg in params and k.arg not in bound:
+                    bound[k.arg] = k.value
+            if set(bound) != set(params):
+                continue
+            # the name is bound once
+            n_bind = sum(1 for n in ast.walk(tree) if isinstance(n, ast.Name) and n.id == tgt.id and isinstance(n.ctx, (ast.Store, ast.Del)))
+            n_attr = sum(1 for n in ast.walk(tree) if isinstance(n, ast.Attribute) and n.attr == tgt.id and isinstance(n.ctx, (ast.Store, ast.Del)))
+            if n_bind != 1 or n_attr:
+                continue
+            insts.append((holder, tgt.id, c, {a: bound[p_] for a, p_ in stores.items()}))
+    if not insts:
+        return 0
+    taken = {st.name for st in tree.body if isinstance(st, (ast.FunctionDef, ast.ClassDef))}
+    new_funcs = []
+    for holder, name, c, attrs in insts:
+        prefix = ("_%s_%s" % (holder.name.lstrip("_"), name.lstrip("_"))) if holder is not None else name
+        methods = {st.name: st for st in c.body if isinstance(st, ast.FunctionDef) and st.name != "__init__"}
+        fname = {m: "%s__%s" % (prefix, m.strip("_")) for m in methods}
+        if any(f in taken for f in fname.values()):
+            continue
+        taken |= set(fname.values())
+        for mname, m in methods.items():
+            decos = [ast.unparse(d) for d in m.decorator_list]
+            f = copy.deepcopy(m)
+            f.decorator_list = []
+            f.name = fname[mname]
+            me = None
+            if decos != ["staticmethod"]:
+                if not f.args.args:
+                    continue
+                me = f.args.args[0].arg
+                f.args.args = f.args.args[1:]
+            is_cls = decos == ["classmethod"]
+
+            class _S(ast.NodeTransformer):
+                def visit_Call(self, n):
+                    self.generic_visit(n)
+                    fn_ = n.func
+                    if me is not None and not is_cls and isinstance(fn_, ast.Name) and fn_.id == me and "__call__" in methods:
+                        n.func = ast.copy_location(ast.Name(id=fname["__call__"], ctx=ast.Load()), fn_)
+                    return n
+
+                def visit_Attribute(self, n):
+                    self.generic_visit(n)
+                    if me is not None and isinstance(n.value, ast.Name) and n.value.id == me and isinstance(n.ctx, ast.Load):
+                        if not is_cls and n.attr in attrs:
+                            return ast.copy_location(copy.deepcopy(attrs[n.attr]), n)
+                        if n.attr in methods:
+                            return ast.copy_location(ast.Name(id=fname[n.attr], ctx=ast.Load()), n)
+                        cv = const_of(c, n.attr)
+                        if cv is not None:
+                            return ast.copy_location(ast.Attribute(value=ast.Name(id=c.name, ctx=ast.Load()), attr=n.attr, ctx=ast.Load()), n)
+                    return n
+
+            f = _S().visit(f)
+            if me is not None and any(isinstance(n, ast.Name) and n.id == me for n in ast.walk(f)):
+                fname[mname] = None  # the instance itself escapes: this method stays as it is
+                continue
+            f = _Beta().visit(f)
+            new_funcs.append((c, ast.fix_missing_locations(f)))
+        live = {m: f for m, f in fname.items() if f}
+
+        class _U(ast.NodeTransformer):
+            def visit_Call(self, n):
+                self.generic_visit(n)
+                fn_ = n.func
+
+                def is_inst(e):
+                    if holder is None:
+                        return isinstance(e, ast.Name) and e.id == name
+                    return isinstance(e, ast.Attribute) and e.attr == name and isinstance(e.value, ast.Name) and e.value.id in ("self", "cls", holder.name)
+
+                if is_inst(fn_) and live.get("__call__"):
+                    n.func = ast.copy_location(ast.Name(id=live["__call__"], ctx=ast.Load()), fn_)
+                elif isinstance(fn_, ast.Attribute) and is_inst(fn_.value) and live.get(fn_.attr):
+                    n.func = ast.copy_location(ast.Name(id=live[fn_.attr], ctx=ast.Load()), fn_)
+                return n
+
+            def visit_Name(self, n):
+                # the instance handed on as a value (map(NAME, ..), key=NAME): all one can do with it is call it
+                if holder is None and n.id == name and isinstance(n.ctx, ast.Load) and live.get("__call__") and not getattr(n, "_is_attr_base", False):
+                    return ast.copy_location(ast.Name(id=live["__call__"], ctx=ast.Load()), n)
+                return n
+
+            def visit_Attribute(self, n):
+                if isinstance(n.value, ast.Name):
+                    n.value._is_attr_base = True
+                self.generic_visit(n)
+                return n
+
+        for st in tree.body:
+            if st is not c and not (isinstance(st, (ast.Assign, ast.AnnAssign)) and isinstance(getattr(st, "value", None), ast.Call) and isinstance(st.value.func, ast.Name) and st.value.func.id == c.name):
+                _U().visit(st)
+        for _c, f in new_funcs:
+            _U().visit(f)
+    # the synthesised functions stand right after the class they come from
+    out = []
+    for st in tree.body:
+        out.append(st)
+        out += [f for c_, f in new_funcs if c_ is st]
+    tree.body = out
+    return len(new_funcs)
+
+
 def _single_dispatch(tree):
     """A module-level `functools.singledispatch` function with its registrations (`@f.register(T)` — also stacked —,
     `@f.register` with an annotated first parameter, `f.register(T, impl)`, `f.register(T)(impl)`) is the type switch
@@ -2095,9 +2272,53 @@ def _yield_from_loops(tree):
     return count[0]
 
 
+def _unpack_displays(tree):
+    """`a, b = (e1, e2)`, `a, b = map(f, (x, y))`, `a, b = (E(v) for v in (x, y))` with as many targets as elements and
+    no target read on the right: one assignment per target, in order"""
+    count = [0]
+
+    def elements(v):
+        if isinstance(v, (ast.Tuple, ast.List)) and not any(isinstance(x, ast.Starred) for x in v.elts):
+            return list(v.elts)
+        if isinstance(v, ast.Call) and isinstance(v.func, ast.Name) and v.func.id == "map" and len(v.args) == 2 and not v.keywords and _simple(v.args[0]) and not isinstance(v.args[0], ast.Constant):
+            src = elements(v.args[1])
+            if src is not None and all(_simple(x) for x in src):
+                return [ast.Call(func=copy.deepcopy(v.args[0]), args=[x], keywords=[]) for x in src]
+        if isinstance(v, (ast.GeneratorExp, ast.ListComp)) and len(v.generators) == 1 and not v.generators[0].ifs and not v.generators[0].is_async and isinstance(v.generators[0].target, ast.Name):
+            src = elements(v.generators[0].iter)
+            if src is not None and all(_simple(x) for x in src):
+                return [_Subst({v.generators[0].target.id: x}).visit(copy.deepcopy(v.elt)) for x in src]
+        return None
+
+    def rewrite(stmts):
+        out = []
+        for st in stmts:
+            for fld in ("body", "orelse", "finalbody"):
+                sub = getattr(st, fld, None)
+                if isinstance(sub, list) and sub and isinstance(sub[0], ast.stmt):
+                    setattr(st, fld, rewrite(sub))
+            for h in getattr(st, "handlers", []) or []:
+                h.body = rewrite(h.body)
+            if isinstance(st, ast.Assign) and len(st.targets) == 1 and isinstance(st.targets[0], (ast.Tuple, ast.List)) and all(isinstance(t, ast.Name) for t in st.targets[0].elts):
+                els = elements(st.value)
+                names = [t.id for t in st.targets[0].elts]
+                if els is not None and len(els) == len(names) and len(set(names)) == len(names) and not any(isinstance(n, ast.Name) and n.id in names for e in els for n in ast.walk(e)):
+                    for t, e in zip(st.targets[0].elts, els):
+                        out.append(ast.fix_missing_locations(ast.copy_location(ast.Assign(targets=[t], value=e, type_comment=None), st)))
+                    count[0] += 1
+                    continue
+            out.append(st)
+        return out
+
+    tree.body = rewrite(tree.body)
+    return count[0]
+
+
 def normalise(tree):
     """unroll table-driven loops and fold constant getattr / setattr; returns (tree, number of loops unrolled)"""
     _single_dispatch(tree)
+    _module_instances(tree)
+    _unpack_displays(tree)
     _yield_from_loops(tree)
     _flatten_private_bases(tree)
     _specialise_template_methods(tree)
